@@ -250,6 +250,47 @@ FindLoop(x, s1, anchor, find) ==
 StrFind(s, p, init) == FindLoop(Ctx(s, p, TRUE), InitOffset(init, Len(s)) + 1, IsAnchored(p), TRUE)
 StrMatch(s, p, init) == FindLoop(Ctx(s, p, TRUE), InitOffset(init, Len(s)) + 1, IsAnchored(p), FALSE)
 
+(* ---- optional arguments as Lua 5.1 reads them ----------------------------- *)
+(* argument tokens: <<"nil">> absent, <<"xnil">> explicit nil, <<"n", k>> the  *)
+(* number k, <<"h", k>> the number k + 0.5, <<"str", t>> the decimal text of   *)
+(* the number token t, <<"big", e>> / <<"nbig", e>> the numbers 2^e / -2^e     *)
+(* (e >= 31: beyond every length here and beyond TLC's integers), anything     *)
+(* else (<<"bad">> = a non-numeric string, booleans) is not a number.          *)
+(* luaL_optinteger: none or nil -> default; numbers and numeric strings are    *)
+(* converted by lua_tointeger = C cast, i.e. truncation towards zero.          *)
+OptInteger(tok, dflt) ==
+    LET num == IF tok[1] = "str" THEN tok[2] ELSE tok IN
+    CASE tok[1] \in {"nil", "xnil"} -> [k |-> "int", v |-> dflt]
+      [] num[1] = "n" -> [k |-> "int", v |-> num[2]]
+      [] num[1] = "h" -> [k |-> "int", v |-> IF num[2] >= 0 THEN num[2] ELSE num[2] + 1]
+      [] num[1] = "big" -> [k |-> "big"]
+      [] num[1] = "nbig" -> [k |-> "nbig"]
+      [] OTHER -> [k |-> "err"]
+
+(* lua_toboolean of the 'plain' argument of find: only nil and false are false *)
+ToBoolean(tok) == ~(tok[1] \in {"nil", "xnil"} \/ (tok[1] = "b" /\ tok[2] = FALSE))
+
+ArgOffset(a, ls) == IF a.k = "big" THEN ls ELSE IF a.k = "nbig" THEN 0 ELSE InitOffset(a.v, ls)
+
+(* lmemfind: leftmost occurrence of p in s at or after offset off (0-based) *)
+FindPlain(s, p, off) ==
+    LET T == {t \in (off + 1)..(Len(s) - Len(p) + 1) : \A j \in 1..Len(p) : s[t + j - 1] = p[j]}
+    IN IF T = {} THEN <<"nil">>
+       ELSE LET t == CHOOSE t \in T : \A u \in T : t <= u IN <<"m", t, t + Len(p) - 1, <<>>>>
+
+ArgErr == <<"err", "bad argument (number expected)">>
+
+(* string.find(s, p [, init [, plain]]) and string.match(s, p [, init]) *)
+StrFindA(s, p, itok, ptok) ==
+    LET a == OptInteger(itok, 1) IN
+    IF a.k = "err" THEN ArgErr
+    ELSE IF ToBoolean(ptok) THEN FindPlain(s, p, ArgOffset(a, Len(s)))
+    ELSE FindLoop(Ctx(s, p, TRUE), ArgOffset(a, Len(s)) + 1, IsAnchored(p), TRUE)
+StrMatchA(s, p, itok) ==
+    LET a == OptInteger(itok, 1) IN
+    IF a.k = "err" THEN ArgErr
+    ELSE FindLoop(Ctx(s, p, TRUE), ArgOffset(a, Len(s)) + 1, IsAnchored(p), FALSE)
+
 (* gmatch_aux iterated to exhaustion: <<"g", list of value lists>> *)
 RECURSIVE GMatchLoop(_, _, _)
 GMatchLoop(x, src, acc) ==
@@ -336,6 +377,18 @@ GSubLoop(x, repl, maxs, anchor, src, n, buf, calls) ==
                  THEN (IF anchor THEN Finish(Append(b1, x.s[src]), src + 1, n1, c1)
                        ELSE GSubLoop(x, repl, maxs, anchor, src + 1, n1, Append(b1, x.s[src]), c1))
                  ELSE Finish(b1, src, n1, c1)
+
+(* string.gsub(s, p, repl [, n]) with n as an argument token: max_s =         *)
+(* luaL_optint(L, 4, srcl+1).  -2^e is non-positive after the (int) cast; for  *)
+(* 2^e the cast is implementation-defined (LP64: 2^31 -> INT_MIN, 2^53 -> 0),  *)
+(* so the result "all matches" and the result "none" are both admitted (Alt).  *)
+StrGSubA(s, p, repl, ntok) ==
+    LET a == OptInteger(ntok, Len(s) + 1) IN
+    IF a.k = "err" THEN ArgErr
+    ELSE GSubLoop(Ctx(s, p, TRUE), repl,
+                  IF a.k = "big" THEN Len(s) + 1 ELSE IF a.k = "nbig" THEN 0 ELSE a.v,
+                  IsAnchored(p), 1, 0, <<>>, <<>>)
+GSubBigAlt(ntok) == LET num == IF ntok[1] = "str" THEN ntok[2] ELSE ntok IN num[1] = "big"
 
 (* maxn: <<"nil">> (absent: srcl+1) or <<"n", k>> *)
 StrGSub(s, p, repl, maxn) ==
